@@ -53,6 +53,14 @@ GridRecoverable(m) == LET E == EdgesOf(m) IN
 RoundTripIff_ == /\ (Parse(cs.ck, cs.toks) = cs.m) <=> GridRecoverable(cs.m)
                 /\ Premise(cs.m) => GridRecoverable(cs.m)
 
+\* (1'') the implementation's square inference: under the premise the re-parse is the maze on the square grid of side
+\* max(R, C) - the maze itself exactly when it is square.  SquareRoundTrip_ must be violated on oblong shapes.
+SquareInference_ ==
+  /\ Premise(cs.m) => ParseSq(cs.ck, cs.toks) = PadSq(cs.m)
+  /\ (cs.m.R = cs.m.C) <=> (PadSq(cs.m) = cs.m)
+  /\ EdgesOf(PadSq(cs.m)) = EdgesOf(cs.m)
+SquareRoundTrip_ == Premise(cs.m) => ParseSq(cs.ck, cs.toks) = cs.m
+
 \* (2) InEmit is membership in Emit: accepts every emission, rejects the emissions of the neighbouring mazes
 Toggled(m, s) == LET S == {SlotOfEdge(e) : e \in EdgesOf(m)} IN
                  [m EXCEPT !.conn = ConnOfSlots(m.R, m.C, IF s \in S THEN S \ {s} ELSE S \cup {s})]
@@ -95,6 +103,8 @@ RoundTrip == Emitted => RoundTrip_
 RoundTripNoPremise == Emitted => RoundTripNoPremise_
 RoundTripUpToGrid == Emitted => RoundTripUpToGrid_
 RoundTripIff == Emitted => RoundTripIff_
+SquareInference == Emitted => SquareInference_
+SquareRoundTrip == Emitted => SquareRoundTrip_
 InEmitExact == Emitted => InEmitExact_
 WrongStyleRejected == Emitted => WrongStyleRejected_
 EquivExact == Emitted => EquivExact_
